@@ -119,6 +119,10 @@ def rand_op(rng, existing=None, allow_copy=True, keys=KEYS):
         if existing and rng.random() < 0.6:
             return rng.choice(existing)
         return rand_path(rng, keys=keys)
+
+    def pick_attr_target():
+        # attributes of the root group are part of the tree too
+        return "/" if rng.random() < 0.15 else pick()
     r = rng.random()
     if r < 0.30:
         return ["set", rand_path(rng, keys=keys), rng.choice(VALS)]
@@ -127,9 +131,9 @@ def rand_op(rng, existing=None, allow_copy=True, keys=KEYS):
     if r < 0.60:
         return ["del", pick()]
     if r < 0.75:
-        return ["sattr", pick(), rng.choice(ATTRS), rng.choice(VALS)]
+        return ["sattr", pick_attr_target(), rng.choice(ATTRS), rng.choice(VALS)]
     if r < 0.82:
-        return ["dattr", pick(), rng.choice(ATTRS)]
+        return ["dattr", pick_attr_target(), rng.choice(ATTRS)]
     if allow_copy:
         src, dst = pick(), rand_path(rng, keys=keys)
         if r < 0.92:
